@@ -3,7 +3,7 @@ import ast
 
 from .. import terms as T
 from .. import sym, rules
-from ..model import AnalysisError
+from ..model import AnalysisError, Func
 
 EXPLANATION = ("Field table of the parser as formula obligations (which token, which conversion, how many rounding digits, default), "
                "column-name / token agreement between the writer (get_vertices / get_edges / get_pressures) and the reader "
@@ -88,18 +88,36 @@ def run(ctx):
     # ---------------- ARITY at the AST level (evaluation order matters)
     ctx.clause("token accesses stay inside the record: accesses beyond the mandatory tokens are guarded by a length test evaluated first")
     n_guarded = 0
+    units = []
     for fname, arity in (("get_vertices", 3), ("get_edges", 3)):
-        fq = repo.func(f"{SE}.{fname}")
+        units.append((repo.func(f"{SE}.{fname}"), arity, set()))
+    seen_units = set()
+    while units:
+        fq, arity, inherited = units.pop(0)
+        if (fq.qualname, tuple(sorted(inherited))) in seen_units:
+            continue
+        seen_units.add((fq.qualname, tuple(sorted(inherited))))
+        ctx.touch(fq)
         parents = {}
         for n in ast.walk(fq.node):
             for c in ast.iter_child_nodes(n):
                 parents[c] = n
-        token_names = set()
+        token_names = set(inherited)
         for n in ast.walk(fq.node):
             if isinstance(n, ast.Assign) and isinstance(n.value, ast.Call) and isinstance(n.value.func, ast.Attribute) and n.value.func.attr == "split":
                 for t in n.targets:
                     if isinstance(t, ast.Name):
                         token_names.add(t.id)
+        # a private helper that is handed the token list is part of the record's reader: its parameter is the token list
+        for c in repo.calls_in(fq):
+            for tgt in repo.resolve_call(c, fq):
+                if isinstance(tgt, Func) and sym.auto_inline(tgt):
+                    ps = tgt.params[1:] if (tgt.cls is not None and not tgt.is_static) else tgt.params
+                    got = {ps[i] for i, a in enumerate(c.args) if i < len(ps) and ((isinstance(a, ast.Call) and isinstance(a.func, ast.Attribute) and a.func.attr == "split")
+                                                                                  or (isinstance(a, ast.Name) and a.id in token_names))}
+                    got |= {k.arg for k in c.keywords if k.arg in ps and isinstance(k.value, ast.Name) and k.value.id in token_names}
+                    if got:
+                        units.append((tgt, arity, got))
 
         def is_tokens(x):
             return (isinstance(x, ast.Call) and isinstance(x.func, ast.Attribute) and x.func.attr == "split") or \
@@ -216,7 +234,8 @@ def run(ctx):
         ctx.ok("STATE", "forsys.surface_evolver / STATE / no module-level mutable state", "forsys/surface_evolver.py", "0 module-level containers mutated")
     idx_attrs = {"index_v", "index_e", "index_f", "index_pressures"}
     wr = [(fq, st_) for a_ in idx_attrs for fq, st_ in repo.writers_of(a_)]
-    okw = bool(wr) and all(fq.qualname == f"{SE}.calculate_first_last" and isinstance(st_["recv"], ast.Name) and st_["recv"].id == "self" for fq, st_ in wr)
+    okw = bool(wr) and all((fq.qualname == f"{SE}.calculate_first_last" or rules.private_only_from(repo, fq, {f"{SE}.calculate_first_last": 1}))
+                           and isinstance(st_["recv"], ast.Name) and st_["recv"].id == "self" for fq, st_ in wr)
     ctx.check(okw, "WHO", f"{SE} / WHO / section boundaries are per-instance attributes written by calculate_first_last only", ctx.where(fl),
               "self.index_* set once per object", "the section boundaries are no longer per-object attributes written only by calculate_first_last")
     cs = [e for e in sc.stores() if e.sub and e.value[0] == "call" and e.value[1] == "new:forsys.cell.Cell"]
